@@ -24,7 +24,7 @@ ASSUMPTIONS = ["url.Parse(u.String()) gives back scheme/host/path of u for the U
 TRUSTED = ["scripted Meter of harness/cmd/c02 (Rating/IsReady set by the scenario)"]
 
 SCHEMES = ["http", "https"]
-HOSTS = ["h1", "h2", "h1:8080"]
+HOSTS = ["h1", "h2", "h1:8080", "App-1.Example"]    # hosts are compared as written (sameURL), also mixed-case ones
 PATHS = ["-", "/", "/a"]
 USERS = ["", "", "bob", "al"]
 QUERIES = ["", "", "x=1", "y=2"]
